@@ -321,6 +321,8 @@ class Ops:
             return Const("<str>")
         if isinstance(op, (ast.BitOr, ast.BitAnd, ast.BitXor)):
             return self.bitop(a, op, b, node, env)
+        if isinstance(a, SetV) and isinstance(b, SetV) and isinstance(op, ast.Sub):
+            return self.set_binop(a, op, b, node)
         name = self.BINOPS.get(type(op))
         ta, tb = tv_of(a), tv_of(b)
         if name is None or ta is None or tb is None:
@@ -636,7 +638,7 @@ class Ops:
         if isinstance(v, ListV):
             if v.items is not None:
                 return ("concrete", list(v.items))
-            return ("abstract", v.elem, {"over": v.over, "order": v.order, "symmetric": v.over == "R", "src": v})
+            return ("abstract", v.elem, {"over": v.over, "order": v.order, "symmetric": v.over in ("R", "Rblocks"), "src": v})
         if isinstance(v, SetV):
             if v.items is not None:
                 return ("concrete", list(v.items))
